@@ -142,7 +142,7 @@ def n_blocks(shape, limit, merge):
 
 
 def rand_presence(rnd, n_params, T, kind=None):
-    kind = kind or rnd.choice(["all", "all", "never_one", "toggle", "random", "all_absent_steps", "bursts"])
+    kind = kind or rnd.choice(["all", "all", "never_one", "toggle", "random", "all_absent_steps", "bursts", "rotate"])
     pres = [[True] * n_params for _ in range(T)]
     if kind == "never_one" and n_params > 1:
         j = rnd.randrange(n_params)
@@ -159,6 +159,13 @@ def rand_presence(rnd, n_params, T, kind=None):
     elif kind == "all_absent_steps":
         for t in rnd.sample(range(T), max(1, T // 4)):
             pres[t] = [False] * n_params
+    elif kind == "rotate" and n_params > 1:
+        # the set of parameters with a gradient changes at every step while its SIZE stays constant (a refresh keyed on counts goes stale)
+        k = rnd.randint(1, n_params - 1)
+        off = rnd.randrange(n_params)
+        for t in range(T):
+            on = {(off + t + i) % n_params for i in range(k)}
+            pres[t] = [j in on for j in range(n_params)]
     elif kind == "bursts":
         j = rnd.randrange(n_params)
         a = rnd.randrange(T)
